@@ -9,7 +9,8 @@
      compilation are pairwise disjoint, applying them all (the reference
      [splice]) gives the text the harness recompiled, which still compiles,
      no longer carries the fixed diagnostics and scans like the original
-     (unless a diagnostic was flagged unsatisfiable). *)
+     (unless a diagnostic was flagged unsatisfiable); and when the real
+     `yr fix warnings` ran on the file, it succeeded and left exactly that text. *)
 From Coq Require Import List NArith ZArith Bool Arith.
 From YV Require Import Fix.Patch.
 Import ListNotations.
@@ -24,8 +25,11 @@ Record case := mkCase {
   c_fixed_gone : bool;
   c_scan_equal : bool;
   c_unsat : bool;                         (* nothing to compare (no equivalence fix / original does not compile) *)
-  c_span_text_ok : bool }.                (* every patch names the file of this case and its span covers
-                                             the text its diagnostic is about *)
+  c_span_text_ok : bool;                  (* every patch names the file of this case, its span covers the
+                                             text its diagnostic is about, and the operand a
+                                             `<bool> == 1` rewrite keeps is the one that was written *)
+  c_yr_spellings : nat }.                 (* how many times the file was named on yr's command line
+                                             (each time written differently); 1 unless stated *)
 
 Fixpoint bytes_eqb (a b : list N) : bool :=
   match a, b with
@@ -38,7 +42,7 @@ Definition check_case (c : case) : bool :=
   match c_yr c with
   | None => true
   | Some (ok, content) =>
-      match apply (c_patches c) (c_src c) with
+      match yr_file (c_yr_spellings c) (c_patches c) (c_src c) with
       | Ok out => ok && bytes_eqb content out
       | Damaged w => negb ok && bytes_eqb content w
       | Untouched => negb ok && bytes_eqb content (c_src c)
@@ -58,4 +62,9 @@ Definition spec_case (c : case) : bool :=
   | Some t => bytes_eqb t (splice ps (c_src c))
   | None => false
   end &&
-  c_recompiles c && c_fixed_gone c && (c_scan_equal c || c_unsat c) && c_span_text_ok c.
+  c_recompiles c && c_fixed_gone c && (c_scan_equal c || c_unsat c) && c_span_text_ok c &&
+  (* the real command, when it ran on the file: it leaves the patches applied together *)
+  match c_yr c with
+  | Some (ok, content) => ok && bytes_eqb content (splice ps (c_src c))
+  | None => true
+  end.
